@@ -254,8 +254,12 @@ impl Model {
             Op::Get => {
                 let len = self.len(slot);
                 p.r.via = st.via % 2;
-                p.r.kind = st.kind % 4;
+                p.r.kind = st.kind % GET_KINDS;
                 p.r.i = idx(st.a, len + 2);
+                if p.r.kind >= GET_UNCHECKED && p.r.i >= len {
+                    // the unchecked accessors are only defined for valid indices
+                    p.r.kind -= GET_UNCHECKED;
+                }
                 p.nontrivial = len > 0;
                 if p.r.i < len {
                     p.ev.push(Ev::Val(self.tags(slot)[p.r.i]));
@@ -345,7 +349,7 @@ impl Model {
             Op::New => sim(self, p.r.slot),
             Op::CloneVec | Op::CloneEmpty => sim(self, p.r.slot),
             Op::CloneEmptyIn => sim(self, p.r.other),
-            Op::TypeProbe if p.r.kind == TP_PUSH_HANDLE => 1,
+            Op::TypeProbe if p.r.kind == TP_PUSH_HANDLE || p.r.kind == TP_PUSH_LAZY => 1,
             Op::RawTrip if p.r.form >= 2 => 1 + self.info.cloneable as u32,
             _ => 0,
         };
@@ -512,6 +516,7 @@ impl Model {
         let mut sink = st.sink % SINK_KINDS;
         p.r.kind = kind;
         p.r.via = via;
+        p.r.form = st.form % 2; // operand order of the swap sink
         let other = self.pick_other(slot, st.other as usize);
         if via == VIA_TYPED && !matches!(sink, SINK_DROP | SINK_DOWNCAST_KEEP) {
             sink = SINK_DROP;
@@ -1196,6 +1201,18 @@ impl Model {
                 // the handle is dropped by unwinding: its vector loses the element
                 p.ev.push(Ev::Len(0));
                 p.ev.push(Ev::Panic);
+            }
+            TP_PUSH_LAZY => {
+                let t = self.fresh();
+                p.r.tags.push(t);
+                if self.info.cloneable {
+                    // a lazy clone owns nothing: the twin vector keeps its element, no clone is made
+                    p.ev.push(Ev::Len(1));
+                    p.ev.push(Ev::Panic);
+                } else {
+                    p.r.kind = TP_PUSH_WRAPPER;
+                    p.ev.push(Ev::Panic);
+                }
             }
             TP_SPLICE => {
                 let (lo, hi, se) = self.range(st.form2(), st.a, st.b, len);
